@@ -9,6 +9,7 @@ import (
 	"testing"
 	"time"
 
+	"github.com/libp2p/go-libp2p/core/host"
 	"github.com/libp2p/go-libp2p/core/network"
 	"github.com/libp2p/go-libp2p/core/peer"
 	"github.com/libp2p/go-libp2p/core/peerstore"
@@ -142,7 +143,7 @@ func TestL5UpgraderStack(t *testing.T) {
 			defer ccA.Close()
 			defer rB.c.Close()
 			o, a := muxedOpeners([2]network.MuxedConn{ccA, rB.c})
-			out = runStreams(rt, c.Layer, c.Key, c.Streams, yamuxFrame, o, a)
+			out = runStreams(rt, bubbleEnv, c.Layer, c.Key, c.Streams, yamuxFrame, o, a)
 		})
 		labels, nontrivial := streamLabels(c.Streams, out, yamuxFrame)
 		labels = append(labels, stackLabels(c)...)
@@ -226,9 +227,10 @@ type memHost struct {
 	ps peerstore.Peerstore
 }
 
-func (h *memHost) Close() {
-	h.BasicHost.Close()
+func (h *memHost) Close() error {
+	err := h.BasicHost.Close()
 	h.ps.Close()
+	return err
 }
 
 func newMemHost(w *memWorld, id *keys.Identity, ip string, listen bool) (*memHost, error) {
@@ -273,6 +275,51 @@ func newMemHost(w *memWorld, id *keys.Identity, ip string, listen bool) (*memHos
 	return &memHost{BasicHost: h, ps: ps}, nil
 }
 
+// runHostStreams connects hosts[0] to hosts[1] and runs the planned streams through
+// Host.NewStream / SetStreamHandler; inbound streams are routed by protocol id.
+func runHostStreams(f failer, env runEnv, hosts [2]host.Host, c *hostCase) streamsOutcome {
+	incoming := make([]chan network.Stream, len(c.Streams))
+	for i, sp := range c.Streams {
+		incoming[i] = make(chan network.Stream, 1)
+		ch := incoming[i]
+		hosts[1-sp.Opener].SetStreamHandler(pidOf(i), func(s network.Stream) { ch <- s })
+	}
+	limit := 10 * time.Minute
+	if env.real {
+		limit = 2 * time.Minute
+	}
+	ctx, cancel := context.WithTimeout(context.Background(), limit)
+	defer cancel()
+	if err := hosts[0].Connect(ctx, peer.AddrInfo{ID: hosts[1].ID(), Addrs: hosts[1].Addrs()}); err != nil {
+		if env.real {
+			env.stalled(f, "connect over loopback failed: %v", err)
+		}
+		f.Fatalf("connect over a faithful pipe failed: %v", err)
+	}
+	var o [2]streamOpener
+	var a [2]streamAcceptor
+	for side := 0; side < 2; side++ {
+		self, other := hosts[side], hosts[1-side]
+		o[side] = func(ctx context.Context, idx int) (halfStream, error) {
+			if c.Lazy[idx] {
+				self.Peerstore().AddProtocols(other.ID(), pidOf(idx))
+			} else {
+				self.Peerstore().RemoveProtocols(other.ID(), pidOf(idx))
+			}
+			return self.NewStream(ctx, other.ID(), pidOf(idx))
+		}
+		a[side] = func(idx int) (halfStream, error) {
+			select {
+			case s := <-incoming[idx]:
+				return s, nil
+			case <-time.After(3 * limit):
+				return nil, fmt.Errorf("handler was not called within %v", 3*limit)
+			}
+		}
+	}
+	return runStreams(f, env, c.Layer, c.Key, c.Streams, yamuxFrame, o, a)
+}
+
 type hostCase struct {
 	muxCase
 	Lazy []bool // per stream: the opener already "knows" the protocol (lazy negotiation wrapper)
@@ -313,41 +360,7 @@ func TestL5Hosts(t *testing.T) {
 				rt.Fatalf("host B: %v", err)
 			}
 			defer hB.Close()
-			hosts := [2]*memHost{hA, hB}
-			// inbound streams are routed by protocol id
-			incoming := make([]chan network.Stream, len(c.Streams))
-			for i, sp := range c.Streams {
-				incoming[i] = make(chan network.Stream, 1)
-				ch := incoming[i]
-				hosts[1-sp.Opener].SetStreamHandler(pidOf(i), func(s network.Stream) { ch <- s })
-			}
-			ctx, cancel := context.WithTimeout(context.Background(), 10*time.Minute)
-			defer cancel()
-			if err := hA.Connect(ctx, peer.AddrInfo{ID: hB.ID(), Addrs: hB.Addrs()}); err != nil {
-				rt.Fatalf("connect over a faithful pipe failed: %v", err)
-			}
-			var o [2]streamOpener
-			var a [2]streamAcceptor
-			for side := 0; side < 2; side++ {
-				self, other := hosts[side], hosts[1-side]
-				o[side] = func(ctx context.Context, idx int) (halfStream, error) {
-					if c.Lazy[idx] {
-						self.Peerstore().AddProtocols(other.ID(), pidOf(idx))
-					} else {
-						self.Peerstore().RemoveProtocols(other.ID(), pidOf(idx))
-					}
-					return self.NewStream(ctx, other.ID(), pidOf(idx))
-				}
-				a[side] = func(idx int) (halfStream, error) {
-					select {
-					case s := <-incoming[idx]:
-						return s, nil
-					case <-time.After(30 * time.Minute):
-						return nil, errors.New("handler was not called within 30 virtual minutes")
-					}
-				}
-			}
-			out = runStreams(rt, c.Layer, c.Key, c.Streams, yamuxFrame, o, a)
+			out = runHostStreams(rt, bubbleEnv, [2]host.Host{hA, hB}, c)
 		})
 		labels, nontrivial := streamLabels(c.Streams, out, yamuxFrame)
 		labels = append(labels, stackLabels(&c.muxCase)...)
